@@ -697,8 +697,14 @@ pub mod parser {
 
             // Context window around the error
             let context = 20;
-            let slice_start = start.saturating_sub(context);
-            let slice_end = (end + context).min(input.len());
+            let mut slice_start = start.saturating_sub(context);
+            while !input.is_char_boundary(slice_start) {
+                slice_start -= 1;
+            }
+            let mut slice_end = (end + context).min(input.len());
+            while !input.is_char_boundary(slice_end) {
+                slice_end += 1;
+            }
 
             let snippet = &input[slice_start..slice_end];
 
